@@ -429,6 +429,7 @@ pub fn run(run: &mut Run) {
         }
         run.cov("exhaustive", serde_json::json!(ex && res3.exhausted_bound));
     }
+    key_snapshot_races(run, quick);
     let cs = m.crash_states.load(std::sync::atomic::Ordering::Relaxed) + m3.crash_states.load(std::sync::atomic::Ordering::Relaxed);
     run.cov("evaluations", serde_json::json!(cs + res.transitions));
     run.cov("crash_states_restarted", serde_json::json!(cs));
@@ -436,4 +437,183 @@ pub fn run(run: &mut Run) {
     run.cov("rule", serde_json::json!("every history up to the depth bound; inside every step one crash state per mutating system call (directory copied before the call) plus the state at the end of the step; each is restarted with the real start-up code; distinct = distinct directory contents among the crash states"));
     run.assume("a killed process loses user-space buffers only (prefixes of the system-call sequence, each call atomic)");
     run.assume("the driver remembers for every oplog record (by its op id) the database and key the writer was given");
+}
+
+// ------------------------------------------------------------------------------------------------
+// The keys snapshot (declutter timer thread) racing the registration of a new key (replication
+// loop, main thread). Both run as threads under the controlled scheduler; scheduling points are the
+// acquisitions of the keys map's lock and every file write under the node's directory. After every
+// interleaving the directory is what a kill right then would leave: it is restarted and, if the log
+// is kept, every record must decode to the key it was written for.
+
+struct KeyRaceWorld {
+    node: Node,
+    before: BTreeSet<u64>,
+}
+
+fn key_race_world(flag_valid_at_start: bool, new_keys: usize) -> (KeyRaceWorld, super::c15::SendFut, futures::channel::mpsc::Sender<String>, Vec<String>) {
+    use super::c15::{poll_fut, SendFut};
+    use futures::channel::mpsc::channel;
+    let mut node = Node::new_single("c16race");
+    let mut admin = Session::new();
+    admin.exec(&node, &format!("auth {} {}", USER, PWD));
+    admin.exec(&node, "create-db t tok none");
+    admin.exec(&node, "use-db t tok");
+    admin.exec(&node, "set k1 a");
+    let (mut feed, loop_rx) = channel::<String>(1000);
+    let mut fut = SendFut(Box::pin(nundb::replication_ops::start_replication_thread(loop_rx, node.dbs.clone())));
+    poll_fut(&mut fut);
+    let (queued, _) = node.drain_queues();
+    for m in queued {
+        let _ = feed.try_send(m);
+        poll_fut(&mut fut);
+    }
+    // the database itself is persisted (a log record of a database that was never snapshotted is a listed finding of its own)
+    admin.exec(&node, "snapshot false t");
+    node.run_snapshot_queue();
+    let (queued, _) = node.drain_queues();
+    for m in queued {
+        let _ = feed.try_send(m);
+        poll_fut(&mut fut);
+    }
+    if !flag_valid_at_start {
+        // one more key since the keys snapshot: the flag is invalid when the race starts
+        admin.exec(&node, "set k1b a");
+        let (queued, _) = node.drain_queues();
+        for m in queued {
+            let _ = feed.try_send(m);
+            poll_fut(&mut fut);
+        }
+    }
+    let mut msgs = vec![];
+    for i in 0..new_keys {
+        admin.exec(&node, &format!("set new{} b", i));
+        let (queued, _) = node.drain_queues();
+        msgs.extend(queued);
+    }
+    let before: BTreeSet<u64> = parse_oplog(&node.ctx.dir).iter().map(|r| r.0).collect();
+    (KeyRaceWorld { node, before }, fut, feed, msgs)
+}
+
+pub fn key_snapshot_races(run: &mut Run, quick: bool) {
+    use super::c15::poll_fut;
+    use crate::ilv::*;
+    use crate::report::Violation;
+    SYSCALL_POINTS.store(true, std::sync::atomic::Ordering::SeqCst);
+    // (flag valid when the race starts, new keys the loop registers, keys snapshots run by the timer thread)
+    let mut configs: Vec<(bool, usize, usize)> = vec![(false, 1, 1), (true, 1, 1), (false, 2, 1)];
+    if !quick {
+        configs.push((true, 2, 1));
+        configs.push((false, 1, 2));
+        configs.push((false, 3, 1));
+    }
+    let mut total_exec = 0u64;
+    let mut total_points = 0u64;
+    let mut capped = 0u64;
+    let mut outcomes: BTreeSet<String> = BTreeSet::new();
+    for (valid0, new_keys, snaps) in configs.iter() {
+        let shape = format!("keys snapshot x{} racing the registration of {} new key(s), flag {} at the start", snaps, new_keys, if *valid0 { "valid" } else { "invalid" });
+        let mut found: Vec<Violation> = vec![];
+        let mut mk = || {
+            let (w, fut, feed, msgs) = key_race_world(*valid0, *new_keys);
+            let ctx = w.node.ctx.clone();
+            let mut bodies: Vec<Box<dyn FnOnce(&std::sync::Arc<Sched>) -> String + Send>> = vec![];
+            let mut fut = fut;
+            let mut feed = feed;
+            bodies.push(Box::new(move |_s| {
+                for m in msgs {
+                    let _ = feed.try_send(m);
+                    poll_fut(&mut fut);
+                }
+                std::mem::forget(feed);
+                std::mem::forget(fut);
+                "loop".to_string()
+            }));
+            let dbs = w.node.dbs.clone();
+            let snaps = *snaps;
+            bodies.push(Box::new(move |_s| {
+                for _ in 0..snaps {
+                    nundb::disk_ops::snapshot_keys(&dbs);
+                }
+                "keys-snapshot".to_string()
+            }));
+            (w, ctx, bodies)
+        };
+        let mut check = |w: KeyRaceWorld, x: &Execution<String>, choices: &[usize]| {
+            let schedule: Vec<String> = x.points.iter().map(|p| p.what.clone()).collect();
+            let mut push = |clause: &str, detail: String| {
+                if !found.iter().any(|f| f.clause == clause) {
+                    found.push(Violation { clause: clause.to_string(), shape: shape.clone(), detail, replay: serde_json::json!({"engine":"ilv","property":"C16","flag_valid_at_start":valid0,"new_keys":new_keys,"key_snapshots":snaps,"choices":choices,"schedule":schedule}) });
+                }
+            };
+            if let Some(d) = &x.deadlock {
+                push("deadlock", d.clone());
+                w.node.remove_dir();
+                return;
+            }
+            if x.results.iter().any(|r| r.is_none()) {
+                push("handler-panic", format!("a thread panicked: {:?}", crate::world::PANIC_LOG.lock().unwrap().last()));
+                w.node.remove_dir();
+                return;
+            }
+            // what the writer meant: the running node's own id -> key table
+            let intent = w.node.dbs.id_keys_map.read().unwrap().clone();
+            let new_recs: Vec<(u64, u64, u64, u8)> = parse_oplog(&w.node.ctx.dir).into_iter().filter(|r| !w.before.contains(&r.0)).collect();
+            let copy = fresh_dir("c16race-restart");
+            crash::copy_tree(&w.node.ctx.dir, &copy);
+            let ctx2 = NodeCtx::new(copy.clone(), 5_000_000);
+            match std::panic::catch_unwind(std::panic::AssertUnwindSafe(|| Node::start(ctx2, "n1:1", 1))) {
+                Err(e) => push("startup-panic", format!("{} ; schedule {:?}", panic_msg(&e), schedule)),
+                Ok(n2) => {
+                    n2.shutdown();
+                    let kept: BTreeSet<u64> = parse_oplog(&copy).iter().map(|r| r.0).collect();
+                    let id_key = n2.dbs.id_keys_map.read().unwrap().clone();
+                    let mut log_kept = false;
+                    for (t, k, _d, op) in new_recs.iter() {
+                        if !kept.contains(t) {
+                            continue;
+                        }
+                        log_kept = true;
+                        if *op == 0 || *op == 1 {
+                            let want = intent.get(k);
+                            let got = id_key.get(k);
+                            if got != want {
+                                push("record-decodes-to-wrong-key", format!("the log is kept (flag valid) but the record t={} written for key {:?} (id {}) decodes to {:?} after a restart: the stored keys map does not have the key; schedule {:?}", t, want, k, got, schedule));
+                            }
+                        }
+                    }
+                    if let Err(e) = unique_ids(&n2.dbs) {
+                        push("identifier-shared-after-restart", e);
+                    }
+                    outcomes.insert(format!("{}: log {} after restart, {} new record(s)", shape, if log_kept { "kept" } else { "discarded" }, new_recs.len()));
+                }
+            }
+            let _ = std::fs::remove_dir_all(&copy);
+            w.node.remove_dir();
+        };
+        match explore(if quick { 2 } else { 3 }, 100_000, std::time::Duration::from_secs(if quick { 15 } else { 300 }), &mut mk, &mut check) {
+            Ok(st) => {
+                total_exec += st.executions;
+                total_points += st.points;
+                capped += st.capped.is_some() as u64;
+            }
+            Err(RunError::Hang(m)) => {
+                eprintln!("machinery: ILV C16 {}: {}", shape, m);
+                std::process::exit(2);
+            }
+        }
+        for v in found {
+            run.violate(v);
+        }
+    }
+    SYSCALL_POINTS.store(false, std::sync::atomic::Ordering::SeqCst);
+    run.cov("key_snapshot_race_configs", serde_json::json!(configs.len()));
+    run.cov("key_snapshot_race_executions", serde_json::json!(total_exec));
+    run.cov("key_snapshot_race_scheduling_points", serde_json::json!(total_points));
+    run.cov("key_snapshot_race_configs_capped", serde_json::json!(capped));
+    run.cov("key_snapshot_race_outcomes", serde_json::json!(outcomes.into_iter().collect::<Vec<_>>()));
+    run.cov_add("states", total_exec);
+    run.cov_add("transitions", total_points);
+    run.cov_add("traces_validated_against_impl", total_exec);
+    run.assume("keys snapshot / new key race: the real replication loop (polled with the queued writes of new keys) and the real snapshot_keys run as threads under the controlled scheduler; scheduling points are the acquisitions of the keys map's lock and every file write under the node's directory; the directory after each interleaving is restarted");
 }
